@@ -65,6 +65,11 @@ def max (a b : α) : α := if b < a then a else b
 def min (a b : α) : α := if a < b then a else b
 end MjNum
 
+/-- C `int` bitwise operators (32-bit two's complement), used by translated integer decision logic. -/
+def intLand (a b : Int) : Int := (BitVec.ofInt 32 a &&& BitVec.ofInt 32 b).toInt
+def intLor (a b : Int) : Int := (BitVec.ofInt 32 a ||| BitVec.ofInt 32 b).toInt
+def intXor (a b : Int) : Int := (BitVec.ofInt 32 a ^^^ BitVec.ofInt 32 b).toInt
+
 /-- print a Float as the 16 hex digits of its IEEE bit pattern (canonical NaN as `nan`) -/
 def floatBits (x : Float) : String :=
   if x.isNaN then "nan" else
